@@ -97,6 +97,14 @@ UNITS.append(flow.Unit('sedov-mader', groups=['sedov', 'mader'], props=['props/C
                             'Mader: CJ state of rare() satisfies mass / momentum across the front and the sonic condition; gen/Sedov.v correspondence runs in ./check C11'))
 
 
+import sdrz_corr as SZC
+import admissible_oracle as AO
+UNITS.append(flow.Unit('sdrz', groups=['sdrz'], props=['props/C02_sdrz.v'], custom_corr=SZC.unit_corr,
+                       oracle=lambda rng, tier, reasons: AO.oracle(rng, tier, reasons, kinds=['sdrz']),
+                       note='steady reaction zone: the algebraic state of run_tvec conserves mass and momentum flux in the frame of the front for every reaction '
+                            'progress (theorem on regenerated definitions); also positivity / compression (C17) and c^2 = gamma p / rho (C03)'))
+
+
 def run(report, tier, rng):
     report.assumptions += [
         'real-number semantics of the generated model; py2coq translator validated by in-Coq correspondence goals',
